@@ -100,6 +100,10 @@ ABTU_ret_err static int id_list_add(alloc_list *p_alloc_list,
 {
     /* Needs to add num ids. */
     uint32_t i;
+    /* If the total is too big, the input should be wrong (this also keeps
+     * p_id_list->num + num from wrapping around). */
+    if (num >= MAX_NUM_ELEMS || p_id_list->num >= MAX_NUM_ELEMS - num)
+        return ABT_ERR_OTHER;
     int ret = list_realloc(p_alloc_list, sizeof(int) * p_id_list->num,
                            sizeof(int) * (p_id_list->num + num),
                            (void **)&p_id_list->ids);
@@ -127,6 +131,10 @@ ABTU_ret_err static int list_add(alloc_list *p_alloc_list,
     uint32_t i, j;
     int ret;
 
+    /* If the total is too big, the input should be wrong (this also keeps
+     * p_list->num + num from wrapping around). */
+    if (num >= MAX_NUM_ELEMS || p_list->num >= MAX_NUM_ELEMS - num)
+        return ABT_ERR_OTHER;
     ret = list_realloc(p_alloc_list,
                        sizeof(ABTD_affinity_id_list *) * p_list->num,
                        sizeof(ABTD_affinity_id_list *) * (p_list->num + num),
